@@ -19,12 +19,8 @@ def Block.map (f : R → R) (b : Block R) : Block R := { b with val := fun i => 
 def Tensor.mapVals (f : R → R) (T : Tensor R) : Tensor R :=
   { T with blocks := T.blocks.map (fun kb => (kb.1, kb.2.map f)) }
 
-def tdLt (a b : Charge × Nat) : Bool := lexLt a.1 b.1 || (a.1 == b.1 && a.2 < b.2)
-
 /-- all sector tables (operands jointly) are consistent: one dimension per (leg, charge) -/
-def jointConsistent (rank : Nat) (bs : List (Key × Block R)) : Bool :=
-  (List.range rank).all (fun i =>
-    LegSpace.consistent (sortDedup tdLt (bs.map (fun kb => (kb.1.getD i [], kb.2.shape.getD i 0)))))
+def jointConsistent (rank : Nat) (bs : List (Key × Block R)) : Bool := dimsConsB rank bs
 
 def zeroBlock [Zero R] (shape : List Nat) : Block R := ⟨shape, fun _ => 0⟩
 
@@ -40,7 +36,7 @@ def addBlocks [Zero R] [Add R] (x y : Option (Block R)) : Block R :=
 /-- `a + b` (`_algebra.py:__add__`): same symmetry, signature, charge, diag flag; blocks present in
 only one operand are copied; inconsistent bond dimensions are rejected. -/
 def add [Zero R] [Add R] (a b : Tensor R) : Except Err (Tensor R) :=
-  if a.sym.id ≠ b.sym.id then .error .sym
+  if a.sym ≠ b.sym then .error .sym
   else if a.rank ≠ b.rank then .error .rank
   else if a.s ≠ b.s then .error .signature
   else if a.n ≠ b.n then .error .charge
@@ -116,7 +112,7 @@ def nodupB (l : List Nat) : Bool := l.Nodup
 the model, so the same definition applies).  Result legs: remaining legs of `a` in order, then
 remaining legs of `b`.  Total charge `a.n + b.n`. -/
 def tensordot [Zero R] [Add R] [Mul R] (a b : Tensor R) (inA inB : List Nat) : Except Err (Tensor R) :=
-  if a.sym.id ≠ b.sym.id then .error .sym
+  if a.sym ≠ b.sym then .error .sym
   else if inA.length ≠ inB.length ∨ ¬ nodupB inA ∨ ¬ nodupB inB ∨
       ¬ inA.all (· < a.rank) ∨ ¬ inB.all (· < b.rank) then .error .axes
   else if pick a.s inA ≠ (pick b.s inB).map (fun x => -x) then .error .signature
